@@ -7,6 +7,7 @@ def build(u):
     t = Src.get("tlv.rs")
     u.raw("use vstd::prelude::*;\nverus! {\nglobal size_of usize == 8;\n")
     u.env("prelude.rs")
+    u.env("std_extra.rs")
     u.canary_decls()
     u.env("vec_model.rs")
     u.raw("pub open spec fn be_val(s: Seq<u8>) -> nat decreases s.len() { if s.len() == 0 { 0 } else { be_val(s.drop_last()) * 256 + s.last() as nat } }\n")
